@@ -40,6 +40,11 @@ HARNESSES = [
       "3 symbolic ASCII bytes + U+1F600", covers_required=False, timeout=1500),
     H("c20_last_char_multibyte_5", 200, "same with a 2-byte last character", "3 symbolic ASCII "
       "bytes + U+00E9", tiers=T, covers_required=False, timeout=1500),
+    H("c20_last_char_multibyte_mid2", 60, "last_str_char_and_tail on a 2-byte character that is not the "
+      "last: the next offset advances by its UTF-8 length", "ASCII + U+00F1 + ASCII, both ASCII bytes symbolic",
+      covers_required=False, timeout=1500),
+    H("c20_last_char_multibyte_mid4", 60, "same with a 4-byte character", "ASCII + U+1F600 + ASCII",
+      covers_required=False, timeout=1500),
 ]
 ENCODED = ["ReservedHeapSection::push_pstr_segment", "scan_slice_to_str",
            "scan_slice_to_str_from_start", "pstr_sentinel_length", "Heap::pstr_tail_idx",
